@@ -14,6 +14,7 @@ import Mfi.Props.C10
 import Mfi.Lemmas.WorldL
 import Mfi.Lemmas.WorldTxL
 import Mfi.Props.C05
+import Mfi.Props.C07
 
 namespace Mfi.Props.C11
 open Mfi Mfi.Tx Mfi.Gen Mfi.Props.C10
@@ -370,6 +371,26 @@ theorem world_tx_liquidator_is_backed {w w' : WState} {tx : List TOp} (h : w.run
     exact ⟨j, s, wj, a', ps2, hij, hj, ha', hps2, hc2⟩
   · left
     exact ⟨qs, hqs, hc⟩
+
+/-- **world_no_liquidation_or_bankruptcy_inside_a_flash_loan**: as whole instructions — a classic liquidation whose LIQUIDATEE
+    carries the in-flash-loan flag is refused, and so is a bankruptcy settlement of such an account, whoever signs and whatever
+    the portfolio looks like (inside the bracket its health is unenforced, so neither verdict may be taken on it) -/
+theorem world_no_liquidation_or_bankruptcy_inside_a_flash_loan :
+    (∀ (c : LiqCtx) (amount : Int), hasFlag c.le.flags ACCOUNT_IN_FLASHLOAN = true → (World.liquidate c amount).isOk = false) ∧
+    (∀ (c : Ctx) (available : Int), hasFlag c.a.flags ACCOUNT_IN_FLASHLOAN = true → (World.bankruptcy c available).isOk = false) := by
+  constructor
+  · intro c amount hf
+    cases hr : World.liquidate c amount with
+    | error e => rfl
+    | ok o =>
+      have := (Mfi.Props.C05.world_liquidate_spec hr).2.2.2.2.2.1
+      rw [hf] at this; cases this
+  · intro c available hf
+    cases hr : World.bankruptcy c available with
+    | error e => rfl
+    | ok o =>
+      have := (Mfi.Props.C07.world_bankruptcy_spec hr).2.2.2.2.2.1
+      rw [hf] at this; cases this
 
 /-- **world_tx_withdraw_is_backed**: the same for every withdrawal of a committed transaction made outside receivership (inside
     receivership the bracket's own end enforces health: C10) -/
